@@ -41,7 +41,8 @@ CHUNK = 4
 PROBES = ["key_update", "key_update_requested", "simultaneous_keyupdate",
           "pha", "heartbeat", "heartbeat_short_padding", "tls13", "legacy",
           "illegal_heartbeat", "illegal_ccs", "illegal_certificate",
-          "illegal_finished", "ku_not_aligned", "nst", "secrets_checked"]
+          "illegal_finished", "ku_not_aligned", "nst", "secrets_checked",
+          "pha_order_checked", "resumed", "hrr"]
 COMPONENTS_REAL = ["tlslite post-handshake paths: KeyUpdate, PHA, "
                    "heartbeat, NewSessionTicket processing in readAsync"]
 COMPONENTS_STUB = ["socket", "os.urandom", "clock"]
@@ -73,8 +74,17 @@ def run(job, streams=None):
         sc["sset"]["ticket_count"] = ch.draw(4, "cfg.tickets")
         if ch.draw(3, "cfg.tkeys") != 2:
             sc["sset"]["ticketKeys"] = ["44" * 32]
+        if ch.draw(4, "cfg.hrr") == 1:
+            # handshake goes through a HelloRetryRequest
+            sc["cset"]["keyShares"] = []
+            probes["hrr"] = 1
         if ch.draw(2, "cfg.cauth"):
             sc["ckey"] = ["rsa", "ecdsa", "ed25519"][ch.draw(3, "cfg.ckey")]
+            # a small receive limit on the server spreads the client's
+            # post-handshake flight over several records
+            lim = [None, 64, 200, 600][ch.draw(4, "cfg.srvlimit")]
+            if lim:
+                sc["sset"]["record_size_limit"] = lim
     else:
         ver = [(3, 3), (3, 1), (3, 2)][ch.draw(3, "cfg.ver")]
         pool = scen.negotiable(ver)
@@ -99,7 +109,59 @@ def run(job, streams=None):
             lambda m: hb_seen["s"].append(bytes(m.payload))
     else:
         pair.cset.use_heartbeat_extension = ch.draw(2, "cfg.hbext") == 1
-    oc, os_, st = pair.handshake()
+    # the control traffic may also run on a resumed connection (session ID,
+    # RFC 5077 ticket, TLS 1.3 PSK): what was negotiated for heartbeat / PHA
+    # must hold there too
+    res = ch.draw(4, "cfg.resume")
+    cache = None
+    if res in (1, 2):
+        from tlslite.api import SessionCache
+        if res == 1 and not tls13:
+            with kernel.Node("cache", seed):
+                cache = SessionCache()
+        else:
+            sc["sset"]["ticketKeys"] = ["44" * 32]
+            if tls13 and not sc["sset"].get("ticket_count"):
+                sc["sset"]["ticket_count"] = 1
+            pair.sset.ticketKeys = [bytearray(b"\x44" * 32)]
+            pair.sset.ticket_count = sc["sset"].get("ticket_count", 2)
+        oc, os_, st = pair.handshake(cache=cache)
+        if oc.kind == "ok" and os_.kind == "ok":
+            sim_script.run_script(
+                sim, {"c": pair.c, "s": pair.s},
+                [["s", "w"], ["c", "r"], ["c", "close"], ["s", "r0"]],
+                lambda ep, op: {
+                    "w": lambda: ep.conn.writeAsync(b"first"),
+                    "r": lambda: ep.conn.readAsync(None, 5),
+                    "r0": lambda: ep.conn.readAsync(None, 1),
+                    "close": lambda: ep.conn.closeAsync()}[op[1]])
+            session = pair.c.conn.session
+            sim.links.remove(pair.link)
+            sim.eps.remove(pair.c)
+            sim.eps.remove(pair.s)
+            pair = nodes.Pair(sim, sc, policy="random",
+                              wb_budget=kernel.Budget(40),
+                              delay_budget=kernel.Budget(60),
+                              cnode=kernel.Node("c2", seed),
+                              snode=kernel.Node("s2", seed))
+            if hb:
+                pair.cset.heartbeat_response_callback = \
+                    lambda m: hb_seen["c"].append(bytes(m.payload))
+                pair.sset.heartbeat_response_callback = \
+                    lambda m: hb_seen["s"].append(bytes(m.payload))
+            else:
+                pair.cset.use_heartbeat_extension = \
+                    ch.draw(2, "cfg.hbext2") == 1
+            oc, os_, st = pair.handshake(session=session, cache=cache)
+            if oc.kind == "ok" and pair.c.conn.resumed:
+                probes["resumed"] = 1
+            elif not (oc.kind == "ok" and os_.kind == "ok"):
+                # whether an offered session may break a handshake is C13's
+                # question
+                probes["resume_handshake_failed"] = 1
+                return _res(job, ch, sim, sc, viol, probes, False, [], pair)
+    else:
+        oc, os_, st = pair.handshake()
     if not (oc.kind == "ok" and os_.kind == "ok"):
         v("handshake", "failed", "handshake failed: %r %r" % (oc.exc,
                                                                os_.exc))
@@ -117,6 +179,31 @@ def run(job, streams=None):
                 bytes(conns["s"].session.sr_app_secret) != secrets0["s"]:
             v("secrets", "initial", "application secrets differ right after "
               "the handshake")
+    # invariant, evaluated after every simulation step: the server's session
+    # names a (new) client chain only once the server has accepted the
+    # Finished that ends the corresponding post-handshake flight
+    from sim import observe
+    srv_tap = taps.RecvTap(conns["s"])
+    pha_state = {"chain": conns["s"].session.clientCertChain, "changes": 0,
+                 "flagged": False}
+
+    def pha_invariant(_sim):
+        cur = conns["s"].session.clientCertChain
+        if cur is pha_state["chain"]:
+            return
+        pha_state["chain"] = cur
+        pha_state["changes"] += 1
+        fins = len([m for m in observe.split_hs(
+            [b for t, b in srv_tap.accepted if t == 22]) if m[0] == 20])
+        if fins < pha_state["changes"] and not pha_state["flagged"]:
+            pha_state["flagged"] = True
+            v("pha", "chain_before_finished",
+              "server session names a client chain after %d change(s) while "
+              "only %d post-handshake Finished message(s) had been accepted"
+              % (pha_state["changes"], fins))
+        else:
+            probes["pha_order_checked"] = 1
+    sim.invariants.append(pha_invariant)
     can_hb = {w: conns[w].heartbeat_supported and conns[w].heartbeat_can_send
               for w in "cs"}
     pha_ok = tls13 and sc.get("ckey") and conns["s"]._pha_supported
@@ -260,6 +347,10 @@ def run(job, streams=None):
                 processed = True
         # heartbeat echoes
         for w in "cs":
+            if not hb:
+                # no response callbacks installed: nothing to compare (a
+                # resumed server may send requests without having one)
+                continue
             if hb_seen[w] != hb_sent[w]:
                 v("heartbeat_echo", w, "%s sent heartbeat payloads %r, "
                   "responses carried %r" % (
